@@ -300,6 +300,34 @@ class RealSem:
             return "(mod %s %s)" % (a, b)
         raise ValueError(op)
 
+    def int_bitop(self, op, a, b, sort):
+        """bit operations on the mathematical-integer encoding of machine words (unsigned sorts; shifts by a literal)"""
+        bits, signed = INT_BITS[sort]
+        lit = lambda x: int(x) if re.match(r"^\d+$", x) else None
+        la, lb = lit(a), lit(b)
+        if op in ("Shl", "Shr"):
+            if lb is None:
+                raise ValueError("shift by a symbolic amount")
+            if op == "Shl":
+                return self._wrap("(* %s %d)" % (a, 2 ** lb), sort)
+            return "(div %s %d)" % (a, 2 ** lb)
+        if signed:
+            raise ValueError("bit operation on a signed sort")
+        if la is not None and lb is not None:
+            return str({"BitAnd": la & lb, "BitOr": la | lb, "BitXor": la ^ lb}[op])
+        if la is not None:
+            a, b, la, lb = b, a, lb, la
+        if lb is not None:
+            bit = lambda k: "(mod (div %s %d) 2)" % (a, 2 ** k)
+            ks = [k for k in range(bits) if (lb >> k) & 1]
+            if op == "BitAnd":
+                return "(+ 0 %s)" % " ".join("(* %d %s)" % (2 ** k, bit(k)) for k in ks) if ks else "0"
+            if op == "BitOr":
+                return "(+ %s %s)" % (a, " ".join("(* %d (- 1 %s))" % (2 ** k, bit(k)) for k in ks)) if ks else a
+            return "(+ %s %s)" % (a, " ".join("(* %d (- 1 (* 2 %s)))" % (2 ** k, bit(k)) for k in ks)) if ks else a
+        f = {"BitAnd": "bvand", "BitOr": "bvor", "BitXor": "bvxor"}[op]
+        return "(bv2nat (%s ((_ int2bv %d) %s) ((_ int2bv %d) %s)))" % (f, bits, a, bits, b)
+
     def int_arith_overflow(self, op, a, b, sort):
         bits, signed = INT_BITS[sort]
         lo, hi = (-(2 ** (bits - 1)), 2 ** (bits - 1) - 1) if signed else (0, 2 ** bits - 1)
